@@ -39,6 +39,36 @@ func genFaceHistory(r *gen.RNG, i int) Witness {
 	for j := range ws {
 		ws[j] = fi.gids[r.Intn(len(fi.gids))]
 	}
+	if i%16 == 5 {
+		// a long train of setters between two queries of the same glyphs: a cache
+		// invalidated by a wrapping generation counter (8 or 16 bits) only shows after
+		// exactly that many resets
+		N := gen.Pick(r, []int{254, 255, 256, 257, 510, 511, 512, 65534, 65535, 65536, 65537})
+		tr := Op{K: "train", N: N, Ppem: genPpem(r)}
+		if len(fi.axes) > 0 {
+			tr.Vars, tr.Vars2 = genVars(r, fi), genVars(r, fi)
+		}
+		// the state before the train is the one the train does not end in
+		pre := Op{K: "setppem", Ppem: tr.Ppem}
+		if N%2 == 0 {
+			pre.Ppem = [2]uint16{tr.Ppem[0] + 1, tr.Ppem[1] + 1}
+		}
+		if len(fi.axes) > 0 {
+			pre = Op{K: "setvar", Vars: tr.Vars}
+			if N%2 == 1 {
+				pre.Vars = tr.Vars2
+			}
+		}
+		w.Ops = append(w.Ops, pre)
+		for _, g := range ws {
+			w.Ops = append(w.Ops, Op{K: "query", Query: "extents", GID: uint32(g)}, Op{K: "query", Query: "hadv", GID: uint32(g)})
+		}
+		w.Ops = append(w.Ops, tr)
+		for _, g := range ws {
+			w.Ops = append(w.Ops, Op{K: "query", Query: "extents", GID: uint32(g)}, Op{K: "query", Query: "hadv", GID: uint32(g)}, Op{K: "query", Query: "data", GID: uint32(g)})
+		}
+		n += len(w.Ops)
+	}
 	for len(w.Ops) < n {
 		k := r.Intn(100)
 		switch {
@@ -139,6 +169,26 @@ func judgeFace(w Witness) (vs []violation, st *histStats) {
 			setters++
 			lastSetter = "SetPpem"
 			st.c("op=SetPpem")
+		case "train":
+			for j := 0; j < op.N; j++ {
+				switch {
+				case len(op.Vars) > 0 || len(op.Vars2) > 0:
+					if j%2 == 0 {
+						f.setVars(op.Vars)
+					} else {
+						f.setVars(op.Vars2)
+					}
+					lastSetter = "SetVariations"
+				case j%2 == 0:
+					f.setPpem(op.Ppem)
+					lastSetter = "SetPpem"
+				default:
+					f.setPpem([2]uint16{op.Ppem[0] + 1, op.Ppem[1] + 1})
+					lastSetter = "SetPpem"
+				}
+			}
+			setters += op.N
+			st.c(fmt.Sprintf("op=setter-train/%d", op.N))
 		case "query":
 			st.c("op=query/" + op.Query)
 			k := qk{op.Query, op.GID, op.Metric}
